@@ -20,7 +20,7 @@ use hickory_net::NetError;
 use hickory_proto::dnssec::rdata::{DNSSECRData, DNSKEY, DS};
 use hickory_proto::dnssec::{crypto::Ed25519SigningKey, Algorithm, DigestType, DnssecSigner, SigningKey};
 use hickory_proto::op::{Edns, Message, Query};
-use hickory_proto::rr::rdata::{A, AAAA, CNAME, MX, NS, SOA, TXT};
+use hickory_proto::rr::rdata::{A, AAAA, ANAME, CNAME, MX, NS, SOA, SRV, TXT};
 use hickory_proto::rr::{LowerName, Name, RData, Record, RecordType};
 use hickory_proto::serialize::binary::{BinDecodable, BinDecoder, BinEncoder};
 use hickory_server::dnssec::NxProofKind;
@@ -49,6 +49,9 @@ pub const T_NSEC: u16 = 47;
 pub const T_DNSKEY: u16 = 48;
 pub const T_NSEC3: u16 = 50;
 pub const T_ANY: u16 = 255;
+pub const T_SRV: u16 = 33;
+pub const T_AXFR: u16 = 252;
+pub const T_ANAME: u16 = 65305;
 
 pub const QTYPES: [u16; 9] = [T_A, T_AAAA, T_MX, T_NS, T_CNAME, T_SOA, T_DS, T_TXT, T_ANY];
 
@@ -67,6 +70,9 @@ fn ty_name(t: u16) -> String {
         T_DNSKEY => "DNSKEY".into(),
         T_NSEC3 => "NSEC3".into(),
         T_ANY => "ANY".into(),
+        T_SRV => "SRV".into(),
+        T_AXFR => "AXFR".into(),
+        T_ANAME => "ANAME".into(),
         n => format!("TYPE{n}"),
     }
 }
@@ -82,6 +88,9 @@ fn ty_parse(s: &str) -> Option<u16> {
         "AAAA" => T_AAAA,
         "DS" => T_DS,
         "ANY" => T_ANY,
+        "SRV" => T_SRV,
+        "AXFR" => T_AXFR,
+        "ANAME" => T_ANAME,
         _ => return None,
     })
 }
@@ -162,7 +171,7 @@ fn rs_parse(s: &str) -> Option<Rs> {
     let mut it = s.split('/');
     let name = name_parse(it.next()?)?;
     let ty = ty_parse(it.next()?)?;
-    if ty == T_ANY {
+    if ty == T_ANY || ty == T_AXFR {
         return None;
     }
     let rds: Option<Vec<Rd>> = it.next()?.split('+').map(rd_parse).collect();
@@ -171,7 +180,7 @@ fn rs_parse(s: &str) -> Option<Rs> {
         return None;
     }
     // shape of the rdata per type
-    let need_target = matches!(ty, T_NS | T_CNAME | T_MX);
+    let need_target = matches!(ty, T_NS | T_CNAME | T_MX | T_SRV | T_ANAME);
     if rds.iter().any(|r| r.target.is_some() != need_target || r.tag > 250) {
         return None;
     }
@@ -218,7 +227,7 @@ fn case_parse(t: &[&str]) -> Option<Case> {
     match t {
         ["q", mode, origin, zone, qname, qtype, d, store] => {
             let mut c = case_parse(&["q", mode, origin, zone, qname, qtype, d])?;
-            if c.mode != 'n' {
+            if c.mode != 'n' && c.mode != 's' {
                 return None;
             }
             c.store = Some(store.to_string());
@@ -229,7 +238,9 @@ fn case_parse(t: &[&str]) -> Option<Case> {
             mode: match *mode {
                 "u" => 'u',
                 "n" => 'n',
+                "s" => 's',
                 "3" => '3',
+                "o" => 'o',
                 _ => return None,
             },
             origin: name_parse(origin)?,
@@ -269,6 +280,8 @@ fn to_rdata(ty: u16, rd: &Rd, origin: &LName) -> RData {
         T_MX => RData::MX(MX::new(rd.tag as u16, tgt())),
         T_NS => RData::NS(NS(tgt())),
         T_CNAME => RData::CNAME(CNAME(tgt())),
+        T_ANAME => RData::ANAME(ANAME(tgt())),
+        T_SRV => RData::SRV(SRV::new(rd.tag as u16, 0, 53, tgt())),
         T_DS => RData::DNSSEC(DNSSECRData::DS(DS::new(
             rd.tag as u16,
             Algorithm::ED25519,
@@ -298,6 +311,8 @@ fn from_rdata(d: &RData) -> Option<Rd> {
         RData::MX(m) => Rd { tag: m.preference as u32, target: Some(from_name(&m.exchange)) },
         RData::NS(n) => Rd { tag: 0, target: Some(from_name(&n.0)) },
         RData::CNAME(n) => Rd { tag: 0, target: Some(from_name(&n.0)) },
+        RData::ANAME(n) => Rd { tag: 0, target: Some(from_name(&n.0)) },
+        RData::SRV(v) => Rd { tag: v.priority as u32, target: Some(from_name(&v.target)) },
         RData::DNSSEC(DNSSECRData::DS(ds)) => Rd { tag: ds.key_tag() as u32, target: None },
         RData::SOA(_) => Rd { tag: 0, target: None },
         _ => return None,
@@ -416,23 +431,47 @@ fn build_catalog_uncached(c: &Case) -> Option<(Arc<Catalog>, Option<Vec<StoreRs>
     let origin = to_name(&c.origin);
     let kind = match c.mode {
         'n' => Some(NxProofKind::Nsec),
-        '3' => Some(NxProofKind::Nsec3 {
+        '3' | 'o' => Some(NxProofKind::Nsec3 {
             algorithm: Default::default(),
             salt: Arc::new([]),
             iterations: 0,
-            opt_out: false,
+            opt_out: c.mode == 'o',
         }),
         _ => None,
     };
-    let mut h = InMemoryZoneHandler::<TokioRuntimeProvider>::empty(origin.clone(), ZoneType::Primary, AxfrPolicy::Deny, kind);
-    for rs in &c.zone {
-        for rd in &rs.rds {
-            let rec = Record::from_rdata(to_name(&rs.name), 3600, to_rdata(rs.ty, rd, &c.origin));
-            if !h.upsert_mut(rec, 1) {
-                return None;
+    // three ways to the same store, chosen by a hash of the zone: `empty` + `upsert_mut`, `empty` +
+    // the async `upsert`, `InMemoryZoneHandler::new` from a map of record sets
+    let variant = {
+        let mut hsh = std::collections::hash_map::DefaultHasher::new();
+        std::hash::Hash::hash(&zone_txt(&c.zone), &mut hsh);
+        std::hash::Hasher::finish(&hsh) % 3
+    };
+    let has_apex_soa = c.zone.iter().any(|r| r.ty == T_SOA && r.name == c.origin);
+    let mut h = if variant == 2 && has_apex_soa {
+        let mut map: BTreeMap<hickory_proto::rr::RrKey, hickory_proto::rr::RecordSet> = BTreeMap::new();
+        for rs in &c.zone {
+            let key = hickory_proto::rr::RrKey::new(LowerName::new(&to_name(&rs.name)), RecordType::from(rs.ty));
+            let set = map.entry(key).or_insert_with(|| hickory_proto::rr::RecordSet::new(to_name(&rs.name), RecordType::from(rs.ty), 1));
+            for rd in &rs.rds {
+                if !set.insert(Record::from_rdata(to_name(&rs.name), 3600, to_rdata(rs.ty, rd, &c.origin)), 1) {
+                    return None;
+                }
             }
         }
-    }
+        InMemoryZoneHandler::<TokioRuntimeProvider>::new(origin.clone(), map, ZoneType::Primary, AxfrPolicy::Deny, kind).ok()?
+    } else {
+        let mut h = InMemoryZoneHandler::<TokioRuntimeProvider>::empty(origin.clone(), ZoneType::Primary, AxfrPolicy::Deny, kind);
+        for rs in &c.zone {
+            for rd in &rs.rds {
+                let rec = Record::from_rdata(to_name(&rs.name), 3600, to_rdata(rs.ty, rd, &c.origin));
+                let ok = if variant == 1 { RT.with(|rt| rt.block_on(h.upsert(rec, 1))) } else { h.upsert_mut(rec, 1) };
+                if !ok {
+                    return None;
+                }
+            }
+        }
+        h
+    };
     // the model walks the zone in the order of the case line: it must be the store's order
     {
         let stored: Vec<(LName, u16)> =
@@ -459,10 +498,17 @@ fn build_catalog_uncached(c: &Case) -> Option<(Arc<Catalog>, Option<Vec<StoreRs>
             origin.clone(),
             std::time::Duration::from_secs(86400),
         );
-        h.add_zone_signing_key_mut(signer).ok()?;
-        h.secure_zone_mut().ok()?;
+        if variant == 1 {
+            // the async entry points of `DnssecZoneHandler`
+            use hickory_server::zone_handler::DnssecZoneHandler;
+            RT.with(|rt| rt.block_on(h.add_zone_signing_key(signer))).ok()?;
+            RT.with(|rt| rt.block_on(h.secure_zone())).ok()?;
+        } else {
+            h.add_zone_signing_key_mut(signer).ok()?;
+            h.secure_zone_mut().ok()?;
+        }
     }
-    let store = if c.mode == 'n' { Some(dump_store(&mut h)?) } else { None };
+    let store = if c.mode == 'n' || c.mode == 's' { Some(dump_store(&mut h)?) } else { None };
     let mut cat = Catalog::new();
     cat.upsert(LowerName::new(&origin), vec![Arc::new(h) as Arc<dyn ZoneHandler>]);
     Some((Arc::new(cat), store))
@@ -471,7 +517,7 @@ fn build_catalog_uncached(c: &Case) -> Option<(Arc<Catalog>, Option<Vec<StoreRs>
 /// how an rdata of the case line reads back from the wire (NS/CNAME carry no tag, SOA none)
 fn norm_rd(ty: u16, r: &Rd) -> Rd {
     match ty {
-        T_NS | T_CNAME | T_SOA => Rd { tag: 0, target: r.target.clone() },
+        T_NS | T_CNAME | T_SOA | T_ANAME => Rd { tag: 0, target: r.target.clone() },
         _ => r.clone(),
     }
 }
@@ -935,7 +981,10 @@ fn signed_classes(c: &Case, r: &Resp, qn: &LName) -> Vec<&'static str> {
     if !c.dnssec_ok {
         return v;
     }
-    if c.mode == '3' {
+    if c.mode == 's' {
+        return v;
+    }
+    if c.mode == '3' || c.mode == 'o' {
         // NSEC3 is not modelled: only "no NSEC3 at all behind a wildcard-expanded SOA-type answer"
         if r.rcode == "NOERROR" && c.qtype == T_SOA && !expanded_owners(&r.an).is_empty() && !r.ns.iter().any(|x| x.ty == T_NSEC3) {
             v.push("soa-query-wildcard-no-proof");
@@ -981,7 +1030,11 @@ fn check_signed(c: &Case, exp: &Expected, r: &Resp, qn: &LName) -> Vec<(&'static
     if !(negative || wildcard_answer) {
         return f;
     }
-    if c.mode == '3' {
+    if c.mode == 's' {
+        // signed without a denial chain configured: nothing to demand beyond the RRSIGs
+        return f;
+    }
+    if c.mode == '3' || c.mode == 'o' {
         if !r.ns.iter().any(|x| x.ty == T_NSEC3) {
             f.push(("denial-missing", format!("{} answer without any NSEC3 record", if negative { "negative" } else { "wildcard" })));
         }
@@ -1088,7 +1141,7 @@ mod dev {
         None
     }
     pub fn scan<'a>(z: &'a [Rs], n: &[String], t: u16) -> Option<&'a Rs> {
-        z.iter().find(|r| r.name == n && (r.ty == t || r.ty == T_CNAME))
+        z.iter().find(|r| r.name == n && (r.ty == t || r.ty == T_CNAME || ((t == T_A || t == T_AAAA) && r.ty == T_ANAME)))
     }
     fn lookup_exact<'a>(z: &'a [Rs], n: &[String], t: u16) -> Option<&'a Rs> {
         walk(z, n, t).or_else(|| scan(z, n, t))
@@ -1150,6 +1203,7 @@ mod dev {
                 r.ty != T_CNAME
                     || (r.rds.first().is_some_and(|x| x.target.is_some()) && z.iter().all(|x| x.name != r.name || x.ty == T_CNAME))
             })
+            && z.iter().all(|r| r.ty != T_ANAME)
             && z.iter().all(|r| r.ty != T_NS || !is_wildcard_name(&r.name))
             && !is_wildcard_name(o)
     }
@@ -1232,8 +1286,78 @@ fn classify(classes: &[&'static str], clause: &str) -> String {
 
 // ------------------------------------------------------------------------------------------
 
+/// `r <kind> <origin> <zone> <qname>`: requests the lookup algorithm must never see — the gate at
+/// the head of `Catalog::handle_request` (implementation vs oracle only)
+fn exec_request_gate(t: &[&str], line: &str, rec: &mut Recorder) {
+    let (Some(kind), Some(origin), Some(zone), Some(qname)) = (t.get(1), t.get(2).and_then(|x| name_parse(x)), t.get(3).and_then(|x| zone_parse(x)), t.get(4).and_then(|x| name_parse_case(x))) else {
+        rec.stat("skipped.unparsable-case");
+        return;
+    };
+    let c = Case { mode: 'u', origin, zone: canon_zone(zone), qname, qtype: T_A, dnssec_ok: false, store: None };
+    let Some((cat, _)) = build_catalog(&c) else {
+        rec.stat("skipped.zone-not-stored-as-written");
+        return;
+    };
+    let mut m = Message::query();
+    m.metadata.id = 0x4321;
+    let mut qn = Name::from_labels(c.qname.iter().map(|l| l.as_bytes())).expect("qname");
+    qn.set_fqdn(true);
+    m.add_query(Query::new(qn, RecordType::A));
+    let want = match *kind {
+        "ednsv1" => {
+            // RFC 6891 §6.1.3: unsupported EDNS version -> BADVERS (16), no answer
+            let mut e = Edns::new();
+            e.set_version(1);
+            e.set_max_payload(1232);
+            m.set_edns(e);
+            "RC16"
+        }
+        "opcode" => {
+            m.metadata.op_code = hickory_proto::op::OpCode::Status;
+            "RC4"
+        }
+        "qr" => {
+            m.metadata.message_type = hickory_proto::op::MessageType::Response;
+            "RC1"
+        }
+        _ => {
+            rec.stat("skipped.unparsable-case");
+            return;
+        }
+    };
+    let bytes = m.to_vec().expect("encode");
+    let r = catch(|| {
+        let src: SocketAddr = ([127, 0, 0, 1], 5353).into();
+        let req = Request::from_bytes(bytes, src, Protocol::Tcp).map_err(|e| format!("request: {e}"))?;
+        let cap = Capture::default();
+        RT.with(|rt| rt.block_on(cat.handle_request::<_, TokioTime>(&req, cap.clone())));
+        let out = cap.buf.lock().unwrap().take().ok_or("no response sent".to_string())?;
+        let mut d = BinDecoder::new(&out);
+        Message::read(&mut d).map_err(|e| format!("response does not decode: {e}"))
+    });
+    rec.impl_only += 1;
+    let idx = rec.case(line.to_string(), "~".into());
+    rec.stat(&format!("op.r-{kind}"));
+    match r {
+        Ok(Ok(m)) => {
+            let resp = resp_of(&m);
+            if resp.rcode != want || !resp.an.is_empty() || !resp.ns.is_empty() {
+                rec.fail(idx, format!("request-gate: {kind} must be answered {want} without records, got {}", resp_txt(&resp)), "");
+            } else {
+                rec.stat("oracle.ok");
+            }
+        }
+        Ok(Err(e)) => rec.fail(idx, format!("request-gate: no usable response: {e}"), ""),
+        Err(p) => rec.fail(idx, format!("panic: {p}"), ""),
+    }
+}
+
 pub fn exec(line: &str, rec: &mut Recorder) {
     let t: Vec<&str> = line.split_whitespace().collect();
+    if t.first() == Some(&"r") {
+        exec_request_gate(&t, line, rec);
+        return;
+    }
     if t.first() == Some(&"dev") && t.get(1) == Some(&"n") {
         rec.stat("skipped.dev-n-line-is-emitted-with-its-q-line");
         return;
@@ -1312,7 +1436,7 @@ pub fn exec(line: &str, rec: &mut Recorder) {
         }
     };
     let shown = resp_txt(&resp);
-    let idx = if c.mode != '3' {
+    let idx = if c.mode != '3' && c.mode != 'o' {
         rec.case(line.to_string(), shown.clone())
     } else {
         rec.impl_only += 1;
@@ -1328,6 +1452,17 @@ pub fn exec(line: &str, rec: &mut Recorder) {
             format!("signed={} sclasses={}", b(all_signed), if cl.is_empty() { "-".to_string() } else { cl.join(",") }),
         );
         rec.stat("op.dev-signed");
+    }
+    if c.qtype == T_AXFR {
+        // transfers are C13's subject; here only: with AxfrPolicy::Deny an AXFR query must be
+        // refused and must not carry any record of the zone
+        rec.stat("op.q-axfr");
+        if resp.rcode != "REFUSED" || !resp.an.is_empty() || !resp.ns.is_empty() || !resp.ar.is_empty() {
+            rec.fail(idx, format!("axfr: AXFR with AxfrPolicy::Deny must be REFUSED without records, got {shown}"), "");
+        } else {
+            rec.stat("oracle.ok");
+        }
+        return;
     }
     let exp = reference(&c.origin, &c.zone, &qn, c.qtype);
     rec.stat("op.q");
@@ -1381,7 +1516,7 @@ pub fn exec(line: &str, rec: &mut Recorder) {
 fn exec_both(c: &Case, rec: &mut Recorder) {
     let l = case_line(c);
     exec(&l, rec);
-    if c.mode == 'u' {
+    if c.mode == 'u' && c.qtype != T_AXFR {
         exec(&format!("dev{}", &l[1..]), rec);
     }
 }
@@ -1507,12 +1642,19 @@ fn gen_zone(r: &mut Rng, origin: &LName) -> Vec<Rs> {
                     z.push(Rs { name: occ, ty: T_A, rds: vec![rd(66)] });
                 }
             }
-            _ => z.push(Rs { name: o.clone(), ty: *r.pick(&[T_AAAA, T_TXT, T_MX, T_A]), rds: vec![rd(5)] }),
+            _ => match r.below(4) {
+                0 => {
+                    // SRV: additional processing for its own query type
+                    let t = target(r, &owners);
+                    z.push(Rs { name: o.clone(), ty: T_SRV, rds: vec![rdt(1, &t), rdt(2, &nm("srv.other."))] });
+                }
+                _ => z.push(Rs { name: o.clone(), ty: *r.pick(&[T_AAAA, T_TXT, T_MX, T_A]), rds: vec![rd(5)] }),
+            },
         }
     }
     // MX needs a target
     for rs in z.iter_mut() {
-        if rs.ty == T_MX {
+        if rs.ty == T_MX || rs.ty == T_SRV {
             for x in rs.rds.iter_mut() {
                 if x.target.is_none() {
                     x.target = Some(origin.clone());
@@ -1563,7 +1705,42 @@ fn gen_special(r: &mut Rng, origin: &LName) -> Vec<Rs> {
         Rs { name: origin.clone(), ty: T_SOA, rds: vec![rd(0)] },
         Rs { name: origin.clone(), ty: T_NS, rds: vec![rdt(0, &nm("ns.other."))] },
     ];
-    match r.below(6) {
+    match r.below(7) {
+        6 => {
+            // ANAME (hickory's apex-alias type; no RFC semantics, model-vs-implementation only):
+            // targets with A / AAAA / both / nothing, via CNAME, via another ANAME, out of zone,
+            // below a cut, under a wildcard; ANAME next to address records; CNAME -> ANAME
+            let t = |s: &str| under(&[s], origin);
+            z.push(Rs { name: t("t4"), ty: T_A, rds: vec![rd(1), rd(2)] });
+            z.push(Rs { name: t("t6"), ty: T_AAAA, rds: vec![rd(6)] });
+            z.push(Rs { name: t("t46"), ty: T_A, rds: vec![rd(3)] });
+            z.push(Rs { name: t("t46"), ty: T_AAAA, rds: vec![rd(7)] });
+            z.push(Rs { name: t("tc"), ty: T_CNAME, rds: vec![rdt(0, &t("t46"))] });
+            z.push(Rs { name: t("cut"), ty: T_NS, rds: vec![rdt(0, &nm("ns.other."))] });
+            z.push(Rs { name: under(&["*", "w"], origin), ty: T_A, rds: vec![rd(9)] });
+            let targets = [t("t4"), t("t6"), t("t46"), t("tc"), t("nx"), nm("host.other."), under(&["x", "cut"], origin), under(&["x", "w"], origin), t("an2"), t("an1")];
+            let k = r.range(1, 4);
+            for i in 0..k {
+                let owner = if i == 0 && r.chance(1, 3) { origin.clone() } else { t(&format!("an{}", i + 1)) };
+                let tg = r.pick(&targets).clone();
+                z.push(Rs { name: owner.clone(), ty: T_ANAME, rds: vec![rdt(0, &tg)] });
+                if r.chance(1, 3) {
+                    z.push(Rs { name: owner.clone(), ty: T_A, rds: vec![rd(40)] });
+                }
+                if r.chance(1, 4) {
+                    z.push(Rs { name: owner, ty: T_TXT, rds: vec![rd(41)] });
+                }
+            }
+            if r.chance(1, 2) {
+                z.push(Rs { name: t("ca"), ty: T_CNAME, rds: vec![rdt(0, &t("an1"))] });
+            }
+            if r.chance(1, 3) {
+                z.push(Rs { name: under(&["*", "wa"], origin), ty: T_ANAME, rds: vec![rdt(0, &t("t4"))] });
+            }
+            if r.chance(1, 3) {
+                z.push(Rs { name: t("mx"), ty: T_MX, rds: vec![rdt(10, &t("an1"))] });
+            }
+        }
         0 | 1 => {
             // CNAME chain c0 -> c1 -> ... -> end
             let k = r.range(1, 10) as usize;
@@ -1721,10 +1898,10 @@ fn exhaustive(rec: &mut Recorder) {
 }
 
 pub fn run(o: &Opts, rec: &mut Recorder) {
-    rec.rule = "zones over a small name universe (apex SOA+NS, hosts, ENTs, wildcards at depth 1-3, CNAME chains / loops / out-of-zone targets, delegations with and without glue, DS at cuts, occluded data below cuts, nested cuts, a few ill-formed zones) x qnames in and around the zone x {A,AAAA,MX,NS,CNAME,SOA,DS,TXT,ANY}; every q case has a dev twin comparing the harness' class predicates and the theorem statement with the Lean side; a case is non-trivial unless the query is outside the zone or a plain NXDOMAIN in an apex-only zone; distinct by case line".into();
+    rec.rule = "zones over a small name universe (apex SOA+NS, hosts, ENTs, wildcards at depth 1-3, CNAME chains / loops / out-of-zone targets, delegations with and without glue, DS at cuts, occluded data below cuts, nested cuts, SRV, ANAME (model only), a few ill-formed zones; unsigned / NSEC / signed without denial chain / NSEC3 / NSEC3 opt-out; built by upsert_mut, async upsert or InMemoryZoneHandler::new) x qnames in and around the zone x {A,AAAA,MX,NS,CNAME,SOA,DS,TXT,ANY} (+ SRV, ANAME, AXFR where it applies) + request-gate cases; every q case has a dev twin comparing the harness' class predicates and the theorem statement with the Lean side; a case is non-trivial unless the query is outside the zone or a plain NXDOMAIN in an apex-only zone; distinct by case line".into();
     for l in o.pre_lines.clone() {
         exec(&l, rec);
-        if l.starts_with("q u ") {
+        if l.starts_with("q u ") && !l.contains(" AXFR ") {
             exec(&format!("dev{}", &l[1..]), rec);
         }
     }
@@ -1748,7 +1925,18 @@ pub fn run(o: &Opts, rec: &mut Recorder) {
             if i >= 16 {
                 break;
             }
-            for qt in QTYPES {
+            let has = |t: u16| z.iter().any(|x| x.ty == t);
+            let mut qts: Vec<u16> = QTYPES.to_vec();
+            if has(T_SRV) {
+                qts.push(T_SRV);
+            }
+            if has(T_ANAME) {
+                qts.push(T_ANAME);
+            }
+            if i < 2 || r.chance(1, 12) {
+                qts.push(T_AXFR);
+            }
+            for qt in qts {
                 if !r.chance(1, 2) && i >= 5 {
                     continue;
                 }
@@ -1758,8 +1946,14 @@ pub fn run(o: &Opts, rec: &mut Recorder) {
                 }
                 let c = Case { mode: 'u', origin: origin.clone(), zone: z.clone(), qname: qn.clone(), qtype: qt, dnssec_ok: r.chance(1, 8), store: None };
                 exec_both(&c, rec);
-                if zi % 4 == 0 && dev::zone_wf(&z, &origin) {
-                    let mode = if r.chance(3, 4) { 'n' } else { '3' };
+                if zi % 4 == 0 && qt != T_AXFR {
+                    // signed twin (ill-formed zones too: implementation = model only)
+                    let mode = match r.below(16) {
+                        0..=9 => 'n',
+                        10 | 11 => 's',
+                        12 | 13 => '3',
+                        _ => 'o',
+                    };
                     let c = Case { mode, origin: origin.clone(), zone: z.clone(), qname: qn, qtype: qt, dnssec_ok: !r.chance(1, 6), store: None };
                     exec_both(&c, rec);
                 }
